@@ -97,6 +97,13 @@ fn with_tape<T>(tape: &Option<Vec<u8>>, f: impl FnOnce() -> T) -> T {
     match r { Ok(v) => v, Err(e) => std::panic::resume_unwind(e) }
 }
 
+/// Previous contents of the caller's output buffers: a different byte on every call (the answer must not depend on it).
+static FILL: std::sync::atomic::AtomicUsize = std::sync::atomic::AtomicUsize::new(0);
+pub fn next_fill() -> u8 {
+    let n = FILL.fetch_add(1, std::sync::atomic::Ordering::Relaxed);
+    0xA5u8 ^ (n.wrapping_mul(0x3B) as u8)
+}
+
 macro_rules! sign_set {
     ($fname:ident, $set:ident) => {
         pub fn $fname(f: &str, a: &[&str]) -> Option<String> {
@@ -105,19 +112,34 @@ macro_rules! sign_set {
             match (f, a.len()) {
                 ("keypair", 2) => {
                     let seed = opt_bytes(a[0])?; let tape = tape_arg(a[1])?;
-                    let mut pk = vec![0xA5u8; pp::PUBLICKEYBYTES]; let mut sk = vec![0xA5u8; pp::SECRETKEYBYTES];
+                    let mut pk = vec![next_fill(); pp::PUBLICKEYBYTES]; let mut sk = vec![next_fill(); pp::SECRETKEYBYTES];
                     with_tape(&tape, || sg::keypair(&mut pk, &mut sk, seed.as_deref()));
                     ok(format!("{} {}", hex(&pk), hex(&sk)))
                 }
                 ("signature", 4) => {
                     let msg = unhex(a[0])?; let sk = unhex(a[1])?; let rnd = a[2] == "1"; let tape = tape_arg(a[3])?;
-                    let mut sig = vec![0xA5u8; pp::SIGNBYTES];
+                    let mut sig = vec![next_fill(); pp::SIGNBYTES];
                     with_tape(&tape, || sg::signature(&mut sig, &msg, &sk, rnd));
                     ok(hex(&sig))
                 }
                 ("verify", 3) => {
                     let sig = unhex(a[0])?; let msg = unhex(a[1])?; let pk = unhex(a[2])?;
                     ok(sg::verify(&sig, &msg, &pk).to_string())
+                }
+                // the documented domain of the raw entry points: buffers of AT LEAST the standard size.
+                // keypair_cap <extra> <seed> <tape>: pk / sk buffers longer by <extra>; answers the leading standard-size parts
+                ("keypair_cap", 3) => {
+                    let extra: usize = a[0].parse().ok()?; let seed = opt_bytes(a[1])?; let tape = tape_arg(a[2])?;
+                    let mut pk = vec![next_fill(); pp::PUBLICKEYBYTES + extra]; let mut sk = vec![next_fill(); pp::SECRETKEYBYTES + extra];
+                    with_tape(&tape, || sg::keypair(&mut pk, &mut sk, seed.as_deref()));
+                    ok(format!("{} {}", hex(&pk[..pp::PUBLICKEYBYTES]), hex(&sk[..pp::SECRETKEYBYTES])))
+                }
+                // signature_cap <extra> <msg> <sk> <rnd> <tape>: sig buffer longer by <extra>; answers its first SIGNBYTES bytes
+                ("signature_cap", 5) => {
+                    let extra: usize = a[0].parse().ok()?; let msg = unhex(a[1])?; let sk = unhex(a[2])?; let rnd = a[3] == "1"; let tape = tape_arg(a[4])?;
+                    let mut sig = vec![next_fill(); pp::SIGNBYTES + extra];
+                    with_tape(&tape, || sg::signature(&mut sig, &msg, &sk, rnd));
+                    ok(hex(&sig[..pp::SIGNBYTES]))
                 }
                 _ => None,
             }
@@ -195,6 +217,33 @@ macro_rules! api_dil {
                     let k = api::PublicKey::from_bytes(&pk);
                     ok(k.verify(&msg, &sig).to_string())
                 }
+                ("PublicKey::verify_lens", 4) => {
+                    let pk = unhex(a[0])?; let sig = unhex(a[1])?;
+                    let k = api::PublicKey::from_bytes(&pk);
+                    let (mut calls, mut panics, mut acc, mut first) = (0usize, 0usize, 0usize, String::new());
+                    for ml in a[2].split(',') {
+                        let ml: usize = ml.parse().ok()?; let msg: Vec<u8> = (0..ml).map(|i| (i * 7 + ml) as u8).collect();
+                        calls += 1;
+                        match std::panic::catch_unwind(std::panic::AssertUnwindSafe(|| k.verify(&msg, &sig))) {
+                            Ok(true) => acc += 1, Ok(false) => {},
+                            Err(_) => { panics += 1; if first.is_empty() { first = format!("msglen={}", ml); } }
+                        }
+                    }
+                    ok(format!("calls={} accepted={} panics={} first={}", calls, acc, panics, if first.is_empty() { "-" } else { &first }))
+                }
+                ("SecretKey::sign_lens", 3) => {
+                    let sk = unhex(a[0])?;
+                    let k = api::SecretKey::from_bytes(&sk);
+                    let (mut calls, mut panics, mut first) = (0usize, 0usize, String::new());
+                    for ml in a[1].split(',') {
+                        let ml: usize = ml.parse().ok()?; let msg: Vec<u8> = (0..ml).map(|i| (i * 7 + ml) as u8).collect();
+                        calls += 1;
+                        if std::panic::catch_unwind(std::panic::AssertUnwindSafe(|| k.sign(&msg))).is_err() {
+                            panics += 1; if first.is_empty() { first = format!("msglen={}", ml); }
+                        }
+                    }
+                    ok(format!("calls={} none=0 panics={} first={}", calls, panics, if first.is_empty() { "-" } else { &first }))
+                }
                 // the Keypair entry points (first argument: sk || pk as Keypair::to_bytes gives them)
                 ("Keypair::sign", 5) => {
                     let kpb = unhex(a[0])?; let msg = unhex(a[1])?;
@@ -241,6 +290,38 @@ macro_rules! api_mldsa {
                     let pk = unhex(a[0])?; let msg = unhex(a[1])?; let sig = unhex(a[2])?; let ctx = opt_bytes(a[3])?;
                     let k = api::PublicKey::from_bytes(&pk);
                     ok(k.verify(&msg, &sig, ctx.as_deref()).to_string())
+                }
+                // C08: PublicKey::verify_lens pk sig <msg lengths> <ctx lengths, 'n' = None>: every combination, each call under
+                // catch_unwind; SecretKey::sign_lens sk <msg lengths> <ctx lengths>: deterministic signing of every combination
+                ("PublicKey::verify_lens", 4) => {
+                    let pk = unhex(a[0])?; let sig = unhex(a[1])?;
+                    let k = api::PublicKey::from_bytes(&pk);
+                    let (mut calls, mut panics, mut acc, mut first) = (0usize, 0usize, 0usize, String::new());
+                    for ml in a[2].split(',') { for cl in a[3].split(',') {
+                        let ml: usize = ml.parse().ok()?; let msg: Vec<u8> = (0..ml).map(|i| (i * 7 + ml) as u8).collect();
+                        let ctx: Option<Vec<u8>> = if cl == "n" { None } else { Some(vec![0x63u8; cl.parse().ok()?]) };
+                        calls += 1;
+                        match std::panic::catch_unwind(std::panic::AssertUnwindSafe(|| k.verify(&msg, &sig, ctx.as_deref()))) {
+                            Ok(true) => acc += 1, Ok(false) => {},
+                            Err(_) => { panics += 1; if first.is_empty() { first = format!("msglen={},ctxlen={}", ml, cl); } }
+                        }
+                    } }
+                    ok(format!("calls={} accepted={} panics={} first={}", calls, acc, panics, if first.is_empty() { "-" } else { &first }))
+                }
+                ("SecretKey::sign_lens", 3) => {
+                    let sk = unhex(a[0])?;
+                    let k = api::SecretKey::from_bytes(&sk);
+                    let (mut calls, mut panics, mut none, mut first) = (0usize, 0usize, 0usize, String::new());
+                    for ml in a[1].split(',') { for cl in a[2].split(',') {
+                        let ml: usize = ml.parse().ok()?; let msg: Vec<u8> = (0..ml).map(|i| (i * 7 + ml) as u8).collect();
+                        let ctx: Option<Vec<u8>> = if cl == "n" { None } else { Some(vec![0x63u8; cl.parse().ok()?]) };
+                        calls += 1;
+                        match std::panic::catch_unwind(std::panic::AssertUnwindSafe(|| k.sign(&msg, ctx.as_deref(), false))) {
+                            Ok(Some(_)) => {}, Ok(None) => none += 1,
+                            Err(_) => { panics += 1; if first.is_empty() { first = format!("msglen={},ctxlen={}", ml, cl); } }
+                        }
+                    } }
+                    ok(format!("calls={} none={} panics={} first={}", calls, none, panics, if first.is_empty() { "-" } else { &first }))
                 }
                 // C10: several deterministic calls on ONE key object (state kept inside a container would show here)
                 // SecretKey::sign_reuse sk msg1 ctx1 msg2 ctx2 -> the two signatures
